@@ -123,12 +123,52 @@ def build_argv(op: dict, proj: Path) -> list:
     return argv
 
 
+def api_text(kind: str, data: bytes, stem: str, suffix: str, ro: dict, tmp: Path):
+    """The library API on these bytes and (resolved) options; None when it raises."""
+    try:
+        if kind == "cellml":
+            import gotranx.myokit as M
+
+            if tmp.exists():
+                shutil.rmtree(tmp)
+            tmp.mkdir(parents=True)
+            src = tmp / (stem + suffix)
+            src.write_bytes(data)
+            ode = M.cellml_to_gotran(src)
+            out = tmp / "out.ode"
+            ode.save(out)
+            return out.read_bytes().decode("utf-8")
+        from gotranx.load import ode_from_string
+        from gotranx.schemes import Scheme
+
+        src_text = data.decode("utf-8").replace("\r\n", "\n").replace("\r", "\n")
+        ode = ode_from_string(src_text, name=stem)
+        schemes = [Scheme(s) for s in ro["scheme"]]
+        if kind == "py":
+            from gotranx.cli import gotran2py
+            from gotranx.codegen import PythonFormat
+
+            return gotran2py.get_code(
+                ode, scheme=schemes, format=PythonFormat(ro["format"]), remove_unused=ro["remove_unused"],
+                stiff_states=list(ro["stiff"]), delta=ro["delta"], backend=gotran2py.Backend(ro["backend"]))
+        from gotranx.cli import gotran2c
+        from gotranx.codegen import CFormat
+
+        return gotran2c.get_code(
+            ode, scheme=schemes, format=CFormat(ro["format"]), remove_unused=ro["remove_unused"],
+            stiff_states=list(ro["stiff"]), delta=ro["delta"])
+    except BaseException as e:  # noqa: B036 - the API's own verdict, whatever it is
+        if isinstance(e, (KeyboardInterrupt, SystemExit)):
+            raise
+        return None
+
+
 REAL_CACHE: dict = {}  # (op, fault, stub mode, pre-state digest) -> real-process outcome (per worker process)
 
 
 class World:
     def __init__(self, root: Path, pool: list, stub_available: bool, hash_key: str, mirror_salt: int = 0,
-                 all_real: bool = False, mirror_rate: int = 32):
+                 all_real: bool = False, mirror_rate: int = 32, sympy_seed: int = 0):
         self.root = Path(root)
         self.proj = self.root / "proj"
         self.proj.mkdir(parents=True, exist_ok=True)
@@ -145,6 +185,8 @@ class World:
         self.stats: dict = {}
         self.mirror_salt = mirror_salt
         self.all_real = all_real
+        self.api_real = all_real
+        self.sympy_seed = int(sympy_seed)
         self.mirror_rate = mirror_rate
         self.n_invoke = 0
         self.violation = None
@@ -301,51 +343,40 @@ class World:
 
     def _api(self, kind: str, data: bytes, stem: str, suffix: str, ro: dict):
         """Text the library API produces for these bytes and options; None if the API
-        raises (the model is then *invalid* for the purpose of the property)."""
-        key = obs.sha(data) + "|" + kind + "|" + stem + suffix + "|" + obs.canon(ro) + "|" + self.stub_mode
+        raises (the model is then *invalid* for the purpose of the property).
+
+        In-process by default.  When a candidate violation is being confirmed (and in
+        replays) the API runs in a fresh process seeded like the CLI process, so that the
+        two sides start from the same sympy state (cold cache, same RNG seed)."""
+        real = self.api_real
+        key = obs.sha(data) + "|" + kind + "|" + stem + suffix + "|" + obs.canon(ro) + "|" + self.stub_mode + ("|real" if real else "")
         if key in self._api_cache:
             return self._api_cache[key]
         os.environ["VERIF_STUB_MODE"] = self.stub_mode
-        text = None
-        try:
-            if kind == "cellml":
-                import gotranx.myokit as M
-
-                tmp = self.root / "apitmp"
-                if tmp.exists():
-                    shutil.rmtree(tmp)
-                tmp.mkdir()
-                src = tmp / (stem + suffix)
-                src.write_bytes(data)
-                ode = M.cellml_to_gotran(src)
-                out = tmp / "out.ode"
-                ode.save(out)
-                text = out.read_bytes().decode("utf-8")
-            else:
-                from gotranx.load import ode_from_string
-                from gotranx.schemes import Scheme
-
-                src_text = data.decode("utf-8").replace("\r\n", "\n").replace("\r", "\n")
-                ode = ode_from_string(src_text, name=stem)
-                schemes = [Scheme(s) for s in ro["scheme"]]
-                if kind == "py":
-                    from gotranx.cli import gotran2py
-                    from gotranx.codegen import PythonFormat
-
-                    text = gotran2py.get_code(
-                        ode, scheme=schemes, format=PythonFormat(ro["format"]), remove_unused=ro["remove_unused"],
-                        stiff_states=list(ro["stiff"]), delta=ro["delta"], backend=gotran2py.Backend(ro["backend"]))
-                else:
-                    from gotranx.cli import gotran2c
-                    from gotranx.codegen import CFormat
-
-                    text = gotran2c.get_code(
-                        ode, scheme=schemes, format=CFormat(ro["format"]), remove_unused=ro["remove_unused"],
-                        stiff_states=list(ro["stiff"]), delta=ro["delta"])
-        except BaseException as e:  # noqa: B036 - the API's own verdict, whatever it is
-            if isinstance(e, (KeyboardInterrupt, SystemExit)):
-                raise
+        tmp = self.root / "apitmp"
+        if tmp.exists():
+            shutil.rmtree(tmp)
+        tmp.mkdir(parents=True)
+        if real:
+            (tmp / "data.bin").write_bytes(data)
+            plan = tmp / "plan.json"
+            with open(plan, "w") as fh:
+                fh.write(json.dumps({"mode": "api", "kind": kind, "data": str(tmp / "data.bin"), "stem": stem, "suffix": suffix,
+                                     "ro": ro, "out": str(tmp / "api_out.txt"), "tmp": str(tmp / "w"), "sympy_seed": self.sympy_seed}))
+            env = dict(os.environ)
+            env["VERIF_STUB_MODE"] = self.stub_mode
+            env["PYTHONHASHSEED"] = self.hash_key
+            subprocess.run([PY, str(VERIF / "sim" / "cli_launcher.py"), str(plan)], cwd=str(tmp), env=env,
+                           stdin=subprocess.DEVNULL, stdout=subprocess.DEVNULL, stderr=subprocess.DEVNULL, timeout=600)
+            outp = tmp / "api_out.txt"
             text = None
+            if outp.exists():
+                with open(outp, "rb") as fh:
+                    raw = fh.read()
+                text = raw[3:].decode("utf-8") if raw.startswith(b"OK\n") else None
+            self.count("api_real_process_runs")
+        else:
+            text = api_text(kind, data, stem, suffix, ro, tmp / "w")
         self._api_cache[key] = text
         return text
 
@@ -573,7 +604,8 @@ class World:
             if f2.get("target"):
                 f2["target"] = os.path.realpath(str(f2["target"]).replace(os.path.realpath(self.proj), os.path.realpath(mproj), 1))
         plan = mroot / "plan.json"
-        plan.write_text(json.dumps({"argv": argv, "fault": f2}))
+        with open(plan, "w") as fh:
+            fh.write(json.dumps({"argv": argv, "fault": f2, "sympy_seed": self.sympy_seed}))
         env = dict(os.environ)
         env["VERIF_STUB_MODE"] = self.stub_mode
         env["PYTHONHASHSEED"] = self.hash_key
@@ -621,7 +653,11 @@ class World:
             self.count("candidates")
             code2, nf2, post2 = self._run_real(op, pre, fault)
             fired2 = fired if (fault and nf2) else None
-            exps2 = self.expectations(op, pre, fired2)
+            self.api_real = True  # both sides in fresh, equally seeded processes
+            try:
+                exps2 = self.expectations(op, pre, fired2)
+            finally:
+                self.api_real = self.all_real
             ok2, why2 = self.judge(exps2, pre, post2, code2, ign)
             if ok2:
                 self.count("candidates_not_confirmed")
